@@ -23,9 +23,16 @@ core.RECORDS["TopoSorter"] = {"adds": "Seq[AddCall]"}
 
 
 @external("graphlib.TopologicalSorter")
-def _TopologicalSorter(ctx, st):
+def _TopologicalSorter(ctx, st, graph=None):
     ctx.assumed_used.add("graphlib.TopologicalSorter: static_order() is a function of the sequence of add() calls")
-    return Record("TopoSorter", {"adds": SV(TSeq(TAdd), z3.Empty(TSeq(TAdd).sort()))})
+    if graph is None:
+        return Record("TopoSorter", {"adds": SV(TSeq(TAdd), z3.Empty(TSeq(TAdd).sort()))})
+    if isinstance(graph, SV) and graph.ty.kind == "dict" and graph.ty.args[1].kind == "set":
+        # TopologicalSorter(graph) adds every key with its predecessors *in the iteration order of the value*: for a set that order is
+        # arbitrary (hash dependent), so the add() sequence is some unconstrained function of the graph - nothing more is known
+        f = core.uf(f"adds_of_set_graph<{graph.ty!r}>", graph.ty.sort(), TSeq(TAdd).sort())
+        return Record("TopoSorter", {"adds": SV(TSeq(TAdd), f(graph.t))})
+    raise Unsupported("TopologicalSorter(graph) for this kind of graph")
 
 
 def _sorter_add(ctx, st, rec, args):
@@ -148,7 +155,24 @@ contract(
                "types": {"assignment_names": "Set[Name]"}}},
     comps={0: "filter_in(static_order, assignment_names, j)"},
     properties=("C09", "C08", "C12"),
+    # another shape of the same function: a dict name -> dependencies handed to TopologicalSorter(graph)
+    alternatives=[dict(
+        loops={0: {"invariant": {"graph": "graph == graph_spec(assignments, k)", "none": "not has_none(assignments, k)"},
+                   "types": {"graph": "Dict[Name,Set[Name]]"}}},
+        comps={0: "filter_in(static_order, dict_keyset(graph), j)"})],
 )
+
+defspec("graph_spec", {"A": "Seq[Atom]", "j": "Int"}, "Dict[Name,Set[Name]]", """
+def graph_spec(A, j):
+    if j <= 0:
+        return empty("Dict[Name,Set[Name]]")
+    return dict_set(graph_spec(A, j - 1), A[j - 1].name, A[j - 1].value.dependencies)
+""")
+
+
+@registry.spec("dict_keyset")
+def _dict_keyset(ctx, st, d):
+    return SV(TSet(d.ty.args[0]), d.ty.sort().dom(d.t))
 
 # ----------------------------------------------------------------------------- accessors
 
